@@ -41,12 +41,23 @@ func TestVerifC20RaceHelpers(t *testing.T) {
 	}
 	calls := []call{
 		{"ModInverse", func(i int) string { v, ok := ModInverse(big.NewInt(int64(3+i)), n); return fmt.Sprint(v, ok) }},
-		{"ModPow", func(i int) string { v, err := ModPow(big.NewInt(int64(2+i)), big.NewInt(int64(i-50)), n); return fmt.Sprint(v, err) }},
-		{"LegendreSymbol", func(i int) string { return fmt.Sprint(LegendreSymbol(big.NewInt(int64(i*7+1)), p), LegendreSymbol(new(big.Int).Lsh(big.NewInt(int64(i+3)), 70), bigp)) }},
+		{"ModPow", func(i int) string {
+			v, err := ModPow(big.NewInt(int64(2+i)), big.NewInt(int64(i-50)), n)
+			return fmt.Sprint(v, err)
+		}},
+		{"LegendreSymbol", func(i int) string {
+			return fmt.Sprint(LegendreSymbol(big.NewInt(int64(i*7+1)), p), LegendreSymbol(new(big.Int).Lsh(big.NewInt(int64(i+3)), 70), bigp))
+		}},
 		{"Crt", func(i int) string { return Crt(big.NewInt(int64(i)), p, big.NewInt(int64(2*i+1)), q).String() }},
 		{"PrimeSqrt", func(i int) string { v, ok := PrimeSqrt(big.NewInt(int64(i*i+i)), p); return fmt.Sprint(v, ok) }},
-		{"ModSqrt", func(i int) string { v, ok := ModSqrt(big.NewInt(int64(i*i)), []*big.Int{p, q}); return fmt.Sprint(v, ok) }},
-		{"SumFourSquares", func(i int) string { a, b, c, d := SumFourSquares(big.NewInt(int64(1000 + 37*i))); return fmt.Sprint(a, b, c, d) }},
+		{"ModSqrt", func(i int) string {
+			v, ok := ModSqrt(big.NewInt(int64(i*i)), []*big.Int{p, q})
+			return fmt.Sprint(v, ok)
+		}},
+		{"SumFourSquares", func(i int) string {
+			a, b, c, d := SumFourSquares(big.NewInt(int64(1000 + 37*i)))
+			return fmt.Sprint(a, b, c, d)
+		}},
 		{"RepresentToBases", func(i int) string {
 			return RepresentToBases(bases, []*big.Int{big.NewInt(int64(i)), long, big.NewInt(5), long2}, n, 256).String()
 		}},
